@@ -105,6 +105,29 @@ pub fn c10_history<D: LdpcDecoder, const N: usize>(mut used: D, mut fresh: D, la
     kani::cover!(r2.is_ok());
 }
 
+/// contract of the (trusted in Verus) `check_llrs` and `hard_decisions`, through the guarded
+/// wrappers: check_llrs == "every row has an even number of ones", hard_decisions == the 0/1 word.
+/// BOUNDED: the 2x3 and 3x4 matrices with every bit pattern.
+#[kani::proof]
+#[kani::unwind(8)]
+fn c01_check_llrs_small() {
+    use ldpc_toolbox::decoder::verif_export::{check_llrs, hard_decisions};
+    let b3: [bool; 3] = kani::any();
+    let w3 = hard_decisions(&b3, |b| b);
+    assert!(w3.len() == 3);
+    for k in 0..3 {
+        assert!(w3[k] == b3[k] as u8);
+    }
+    assert!(check_llrs(&h1(), &b3, |b| b) == parity_ok(&H1_ROWS, &w3));
+    let b4: [bool; 4] = kani::any();
+    let w4 = hard_decisions(&b4, |b| b);
+    assert!(check_llrs(&h2(), &b4, |b| b) == parity_ok(&H2_ROWS, &w4));
+    kani::cover!(check_llrs(&h2(), &b4, |b| b));
+    kani::cover!(!check_llrs(&h1(), &b3, |b| b));
+}
+
+// (a 65 x 66 chain matrix - more checks than a machine word has bits - was tried: CBMC aborted after 32 min)
+
 macro_rules! dec8 {
     ($ty:ident, $fl1:ident, $fl2:ident, $h10:ident, $h11:ident) => {
         #[kani::proof]
